@@ -247,6 +247,30 @@ func Gen(r *vh.Rng, flavour string) Case {
 			Inj{Kind: kind(), Target: s0, DelayUs: gap})
 		ni = r.Intn(4)
 	}
+	if r.Chance(15) {
+		// a share of the histories nests reactive.Cache calls deeply over a wide key alphabet (distinct keys drawn
+		// from several hundred, in no particular order): the per-key locks of all the levels are held at once
+		ri := r.Intn(nr)
+		depth := 5 + r.Intn(4)
+		seen := map[int]bool{}
+		var keys []int
+		for len(keys) < depth {
+			k := 100 + r.Intn(900)
+			if !seen[k] {
+				seen[k] = true
+				keys = append(keys, k)
+			}
+		}
+		body := []Op{{Kind: "dep", Slot: r.Intn(c.Slots)}}
+		for i := depth - 1; i >= 0; i-- {
+			lvl := []Op{{Kind: "cache", Key: keys[i], Body: body}}
+			if r.Chance(40) {
+				lvl = append([]Op{{Kind: "dep", Slot: r.Intn(c.Slots)}}, lvl...)
+			}
+			body = lvl
+		}
+		c.RRs[ri].Prog = append(c.RRs[ri].Prog, body...)
+	}
 	for i := 0; i < ni; i++ {
 		c.Injs = append(c.Injs, genInj(r, &c, stopPct))
 	}
